@@ -507,6 +507,19 @@ fn relational(sb: &StoreBox, q: &[u32], op: &Value, ev: &mut Map<String, Value>)
         let out: Vec<Value> = sb.shadow.iter().map(|rec| json!({"id": rec.0, "hits": run(&[rec.clone()], limit)})).collect();
         ev.insert("singles".into(), Value::Array(out));
     }
+    if wants(op, "singles_some") {
+        // a sample of the records (positions named by the case), each alone in a store of its own: for stores too large to
+        // ask every record
+        if let Some(Value::Array(pos)) = op.get("single_of") {
+            let out: Vec<Value> = pos
+                .iter()
+                .filter_map(|p| p.as_u64())
+                .filter_map(|p| sb.shadow.get(p as usize))
+                .map(|rec| json!({"id": rec.0, "hits": run(&[rec.clone()], limit)}))
+                .collect();
+            ev.insert("singles_some".into(), Value::Array(out));
+        }
+    }
     if wants(op, "unlimited") {
         ev.insert("unlimited".into(), run(&sb.shadow, sb.shadow.len() + 10));
     }
